@@ -40,17 +40,35 @@ BigSeq == <<WSub(WPow2(31), W(2)), WPred(WPow2(31)), WPow2(31), WSucc(WPow2(31))
             WNeg(WSub(WPow2(63), W(2))), WNeg(WPred(WPow2(63))), WNeg(WPow2(63))>>
 NBig == Len(BigSeq)
 
+\* The selectable (operation, representations) combinations, numbered: an exported input lists the NUMBERS of
+\* the combinations whose precondition holds; the tables themselves are exported once with the "static" input.
+Seq2Set(q) == {q[n] : n \in 1..Len(q)}
+UOpSeq == <<"cast", "floor", "ceil", "round", "conv">>
+UComboSeq == << <<"i64", "i64">>, <<"f64", "f64">>, <<"i64", "f64">>, <<"f64", "i64">>, <<"i32", "i32">>, <<"i32", "i64">> >>
+BOpSeq == <<"plus", "minus", "mod", "div", "cmp", "common">>
+BComboSeq == << <<"i64", "i64">>, <<"f64", "f64">>, <<"i64", "f64">>, <<"i32", "i64">>, <<"i32", "i32">> >>
+MOpSeq == <<"neg", "pos", "preinc", "postinc", "predec", "postdec", "pluseq", "minuseq", "muleq", "diveq",
+            "modeq", "modeq_d", "mul", "rmul", "divs", "mods", "abs", "zero", "count">>
+MRepSeq == <<"i64", "i32", "f64">>
+Table3(ops, combos) ==
+    [n \in 1..(Len(ops) * Len(combos)) |->
+        <<ops[((n - 1) \div Len(combos)) + 1], combos[((n - 1) % Len(combos)) + 1][1], combos[((n - 1) % Len(combos)) + 1][2]>>]
+UTable == Table3(UOpSeq, UComboSeq)
+BTable == Table3(BOpSeq, BComboSeq)
+MTable == [n \in 1..(Len(MOpSeq) * Len(MRepSeq)) |-> <<MOpSeq[((n - 1) \div Len(MRepSeq)) + 1], MRepSeq[((n - 1) % Len(MRepSeq)) + 1]>>]
+ASSUME TablesOK == Seq2Set(UOpSeq) = UOps /\ Seq2Set(BOpSeq) = BinOps /\ Seq2Set(MOpSeq) = MemberOps
+                   /\ Seq2Set(UComboSeq) = UCombos /\ Seq2Set(BComboSeq) = BCombos /\ Seq2Set(MRepSeq) = MReps
+
 UOk(i, j, c) ==
-    LET x == UCtx(i, j, c) IN
-    {t \in {<<op, cb[1], cb[2]>> : op \in UOps, cb \in UCombos} : UPreC(t[1], t[2], t[3], c, x)}
+    LET x == UCtx(i, j, c) IN {n \in 1..Len(UTable) : UPreC(UTable[n][1], UTable[n][2], UTable[n][3], c, x)}
 BOk(i, j, c1, c2) ==
     LET x == CvX(i, j, c1) y == CvY(i, j, c2) IN
-    {t \in {<<s, cb[1], cb[2]>> : s \in BinOps, cb \in BCombos} : BinPreC(t[1], t[2], t[3], c1, c2, x, y)}
+    {n \in 1..Len(BTable) : BinPreC(BTable[n][1], BTable[n][2], BTable[n][3], c1, c2, x, y)}
 \* spellings that ignore the scalar are exported once (k = 1), zero() once per chain
 KIndep == {"neg", "pos", "preinc", "postinc", "predec", "postdec", "abs", "zero", "count"}
-MOk(c, k) == {t \in {<<s, r>> : s \in MemberOps, r \in MReps} :
-                 /\ (t[1] \in KIndep => k = 1) /\ (t[1] = "zero" => c = WZero)
-                 /\ MemberPre(t[1], t[2], c, k)}
+MOk(c, k) == {n \in 1..Len(MTable) :
+                 /\ (MTable[n][1] \in KIndep => k = 1) /\ (MTable[n][1] = "zero" => c = WZero)
+                 /\ MemberPre(MTable[n][1], MTable[n][2], c, k)}
 
 \* the exported input of a state
 Input(s) ==
@@ -60,7 +78,7 @@ Input(s) ==
       [] s.kind = "bb" -> [fam |-> "b", i |-> s.i, j |-> s.j, c |-> BigSeq[s.c], c2 |-> W(s.c2), ok |-> BOk(s.i, s.j, BigSeq[s.c], W(s.c2))]
       [] s.kind = "m"  -> [fam |-> "m", i |-> s.i, c |-> W(s.c), k |-> s.c2, ok |-> MOk(W(s.c), s.c2)]
       [] s.kind = "mb" -> [fam |-> "m", i |-> s.i, c |-> BigSeq[s.c], k |-> s.c2, ok |-> MOk(BigSeq[s.c], s.c2)]
-      [] s.kind = "static" -> [fam |-> "static", np |-> NP]
+      [] s.kind = "static" -> [fam |-> "static", np |-> NP, utable |-> UTable, btable |-> BTable, mtable |-> MTable]
 
 Init ==
     \/ \E i \in 1..NP, j \in 1..NP : st = [kind |-> "u", i |-> i, j |-> j, c |-> -K, c2 |-> 0]
